@@ -282,7 +282,7 @@ def doc_cases(tier, rng, prefix):
         if t in seen: return
         seen.add(t); cases.append(case_of(f, f"{prefix}{len(cases)}"))
     for f in small_fields(): add(f)
-    n = {"quick": 9000, "search": 30000, "thorough": 250000}[tier]
+    n = {"quick": 9000, "search": 30000, "thorough": 400000}[tier]
     for i in range(n):
         k = i % 10
         if k < 6: add(gen_field(rng))
@@ -311,7 +311,7 @@ def text_cases(tier, rng, prefix):
     for s in gen.repo_rel_corpus(): add(s)
     n = {"quick": 3, "search": 3, "thorough": 4}[tier]
     for s in gen.exhaustive(gen.REL_ALPHABET, n): add(s)
-    ngen = {"quick": 6000, "search": 20000, "thorough": 150000}[tier]
+    ngen = {"quick": 6000, "search": 20000, "thorough": 250000}[tier]
     for _ in range(ngen):
         t = render(gen_field(rng))
         add(t)
